@@ -77,6 +77,11 @@ CLAIMS = {
         "note": "Not decided: the run-time pipeline after the reader (__chars_to_ranges merging, shorthand substitution, one-character collapse) - data-dependent loops over run-time sets. Trusts ast, re._parser, /verif/sa, spec/class_sets.py (our reading of the documentation).",
         "technique": "regex-constant ASTs as interval sets + writer/reader table agreement + abstract interpretation of the constructors against the interpreted reader",
     },
+    "C07": {
+        "text": "`|`, `-`, `~` are walked by the abstract interpreter - including the nested interval worklists - on EVERY pair of classes over a small contiguous alphabet (all subsets, every spelling of two-member runs, both polarities, an alphabet of ordinary letters and one of escape-table characters), under several iteration orders of the interpreted sets; the text handed to the class pipeline must denote exactly the union / difference, `-` raises EmptyClassException iff nothing is left, `~` only toggles the marker (adversarial bodies), plus a 33-row dispatch/exception table (polarity mix, singletons, Any, global word classes).",
+        "note": "Complete for operands whose members fit the alphabet (5 letters quick, 6 thorough: every order type of up to ~3 intervals per operand); the loops are not proved for arbitrarily many intervals. __process after the constructor and true hash-seed independence are not decided (4 deterministic set orders are swept). Trusts ast, re._parser, /verif/sa.",
+        "technique": "abstract interpretation of the class-algebra functions, exhaustive over a small abstract alphabet, compared with set algebra via the regex parser",
+    },
 }
 
 NOT_APPLICABLE = {
